@@ -82,3 +82,7 @@ package lang
 //@ func InstrMethodKey
 //@   property C12 C10
 //@   pure
+
+//@ func PackageNameFromFunction
+//@   property C09
+//@   pure
